@@ -1,4 +1,4 @@
-package f64
+package cmplx64
 
 import (
 	"testing"
